@@ -101,13 +101,25 @@ Definition extract_mb_ix (m : merkle_block) : ixres (bytes * list bytes) :=
   extract_ix bytes node_hash bytes_eqb (mb_count m) (mb_hashes m) (bits_of_bytes (mb_flags m)).
 
 (* ---------- the whole-input decoder ---------- *)
-(* NewMerkleBlockFromBuffer (and NewMerkleBlockFromHex after hex.DecodeString): BtcDecode reads
-   from the buffer and whatever follows the flag bytes stays there, unlooked at *)
+(* checkMerkleBlockHashCount (fix c4c5793): with more than 84 bytes of input, if the varint at offset 84
+   reads without error as a count that the bytes after it cannot hold (count > remaining / 32), the input
+   is refused before btcd is called; a short input or a malformed varint is left to the decoder.
+   true = refused *)
+Definition hash_count_exceeds (bs : bytes) : bool :=
+  if (length bs <=? 84)%nat then false
+  else match p_varint (skipn 84 bs) with
+       | None => false
+       | Some (count, rest) => lenN rest / 32 <? count
+       end.
+
+(* NewMerkleBlockFromBuffer (and NewMerkleBlockFromHex after hex.DecodeString): the count check, then
+   BtcDecode reads from the buffer; whatever follows the flag bytes stays there, unlooked at *)
 Definition decode_merkle_block (bs : bytes) : option merkle_block :=
-  match parse_merkle_block bs with
-  | Some (m, _) => Some m
-  | None => None
-  end.
+  if hash_count_exceeds bs then None
+  else match parse_merkle_block bs with
+       | Some (m, _) => Some m
+       | None => None
+       end.
 
 (* NewMerkleBlockFromBuffer followed by ExtractMatches, three outcomes *)
 Definition decode_extract_ix (bs : bytes) : ixres (bytes * list bytes) :=
@@ -121,7 +133,7 @@ Definition decode_extract_ix (bs : bytes) : ixres (bytes * list bytes) :=
    with maxFlagsPerMerkleBlock (constants, not the remaining input) and then allocates
    make([]chainhash.Hash, count) + make([]*chainhash.Hash, 0, count) resp. the flag bytes BEFORE
    reading them; deserializePartialMerkleTree then copies what was read (a 32-byte clone and a
-   slice header per hash, one bool per flag bit).  Bytes requested, as a function of the input: *)
+   slice header per hash, one bool per flag bit).  Bytes requested by btcd, as a function of the input: *)
 Definition alloc_btcd (bs : bytes) : N :=
   match (hd <- take 80 ;; cnt <- p_le 4 ;; nh <- p_varint ;; ret nh) bs with
   | None => 0
@@ -137,7 +149,14 @@ Definition alloc_btcd (bs : bytes) : N :=
 
 Definition alloc_repo (m : merkle_block) : N := 56 * lenL (mb_hashes m) + 8 * lenN (mb_flags m).
 
+(* btcd is only reached when the count check lets the input through *)
 Definition alloc_merkle_block (bs : bytes) : N :=
-  alloc_btcd bs + match decode_merkle_block bs with Some m => alloc_repo m | None => 0 end.
+  if hash_count_exceeds bs then 0
+  else alloc_btcd bs + match decode_merkle_block bs with Some m => alloc_repo m | None => 0 end.
 
-Definition alloc_const_bound : N := 40 * wire_max_hashes + wire_max_flags.
+(* before fix c4c5793: no count check in front of btcd *)
+Definition alloc_merkle_block_prefix (bs : bytes) : N :=
+  alloc_btcd bs + match parse_merkle_block bs with Some (m, _) => alloc_repo m | None => 0 end.
+
+(* the only reservation that is not backed by input: the flag bytes, capped by btcd at 50000 *)
+Definition alloc_const_bound : N := wire_max_flags.
